@@ -35,9 +35,10 @@ static vector<Tpl> templates() {
     // fixed-relative groups: relative offsets of the members stay what they were at construction (x0,y0 = initial centres)
     T.push_back({"FixedRelative {0,1}", [=](vpsc::Rectangles &rs, vector<CompoundConstraint *> &) -> CompoundConstraint * { return new FixedRelativeConstraint(rs, {0, 1}); }, [=](const VD &x, const VD &y, const VD &x0, const VD &y0) { return max(fabs((x[1] - x[0]) - (x0[1] - x0[0])), fabs((y[1] - y[0]) - (y0[1] - y0[0]))); }, 1});
     T.push_back({"FixedRelative {0,1,2}", [=](vpsc::Rectangles &rs, vector<CompoundConstraint *> &) -> CompoundConstraint * { return new FixedRelativeConstraint(rs, {0, 1, 2}); }, [=](const VD &x, const VD &y, const VD &x0, const VD &y0) { double v = 0; for (int i = 1; i < 3; i++) v = max(v, max(fabs((x[i] - x[0]) - (x0[i] - x0[0])), fabs((y[i] - y[0]) - (y0[i] - y0[0])))); return v; }, 2});
-    // fixedPosition = true: the group is additionally pinned where it was at construction
-    T.push_back({"FixedRelative fixedPosition {0,1}", [=](vpsc::Rectangles &rs, vector<CompoundConstraint *> &) -> CompoundConstraint * { return new FixedRelativeConstraint(rs, {0, 1}, true); }, [=](const VD &x, const VD &y, const VD &x0, const VD &y0) { double v = 0; for (int i = 0; i < 2; i++) v = max(v, max(fabs(x[i] - x0[i]), fabs(y[i] - y0[i]))); return v; }, 1});
-    T.push_back({"FixedRelative fixedPosition {1,2}", [=](vpsc::Rectangles &rs, vector<CompoundConstraint *> &) -> CompoundConstraint * { return new FixedRelativeConstraint(rs, {1, 2}, true); }, [=](const VD &x, const VD &y, const VD &x0, const VD &y0) { double v = 0; for (int i = 1; i < 3; i++) v = max(v, max(fabs(x[i] - x0[i]), fabs(y[i] - y0[i]))); return v; }, 2});
+    // fixedPosition = true: "the group of nodes will attempt to stay close to its current position" -- a soft preference (weight 1e5), so
+    // the hard part is still only the relative offsets; the variants are in the alphabet because they take a different path (fixed weights)
+    T.push_back({"FixedRelative fixedPosition {0,1}", [=](vpsc::Rectangles &rs, vector<CompoundConstraint *> &) -> CompoundConstraint * { return new FixedRelativeConstraint(rs, {0, 1}, true); }, [=](const VD &x, const VD &y, const VD &x0, const VD &y0) { return max(fabs((x[1] - x[0]) - (x0[1] - x0[0])), fabs((y[1] - y[0]) - (y0[1] - y0[0]))); }, 1});
+    T.push_back({"FixedRelative fixedPosition {1,2}", [=](vpsc::Rectangles &rs, vector<CompoundConstraint *> &) -> CompoundConstraint * { return new FixedRelativeConstraint(rs, {1, 2}, true); }, [=](const VD &x, const VD &y, const VD &x0, const VD &y0) { return max(fabs((x[2] - x[1]) - (x0[2] - x0[1])), fabs((y[2] - y[1]) - (y0[2] - y0[1]))); }, 2});
     return T;
 }
 static const double GRID[3] = {0, 10, 30};
@@ -58,6 +59,10 @@ static void c07_case(const vector<Tpl> &T, int a, int b, int n, int code, int sz
     for (int i = 0; i < n; i++) desc += mcx::fmt("(%g,%g)", x0[i], y0[i]);
     desc += " constraints: [" + T[a].name + "]" + (b != a ? " + [" + T[b].name + "]" : "");
     ctx.count("transitions"); ctx.count("evaluations"); ctx.announce(desc);
+    // input class of KF-C07-3 / KF-C15-3: ConstrainedMajorizationLayout with setAvoidOverlaps() and a FixedRelativeConstraint whose group
+    // is marked fixedPosition -- the gradient projection diverges (coordinates ~1e13) or never returns
+    bool cmlFixed = mode == 4 && overlap && (T[a].name.find("fixedPosition") != string::npos || T[b].name.find("fixedPosition") != string::npos);
+    vector<string> inClass; if (cmlFixed) { inClass.push_back("cml_avoid_overlaps_with_fixed_position_group"); ctx.arm_timeout(ctx.c15() ? "no_return" : "", inClass, desc, 3); }
     try {
         if (mode < 4) {
             ConstrainedFDLayout alg(rs, es, 30); alg.setConstraints(ccs); alg.setAvoidNodeOverlaps(overlap); alg.setUseNeighbourStress(nbr); alg.setUnsatisfiableConstraintInfo(&ux, &uy);
@@ -65,11 +70,12 @@ static void c07_case(const vector<Tpl> &T, int a, int b, int n, int code, int sz
         } else {
             ConstrainedMajorizationLayout alg(rs, es, nullptr, 30); alg.setConstraints(&ccs); alg.setUnsatisfiableConstraintInfo(&ux, &uy); if (overlap) alg.setAvoidOverlaps(); alg.run();
         }
-    } catch (vpsc::CriticalFailure &f) { thrown = f.what(); ctx.library_abort(f.what(), desc); } catch (...) { thrown = "exception"; ctx.library_abort("exception", desc); }
+    } catch (vpsc::CriticalFailure &f) { thrown = f.what(); ctx.library_abort(f.what(), desc, inClass); } catch (...) { thrown = "exception"; ctx.library_abort("exception", desc, inClass); }
+    if (cmlFixed) ctx.disarm();
     VD x, y; bool bad = false; string pos;
     for (int i = 0; i < n; i++) { x.push_back(rs[i]->getCentreX()); y.push_back(rs[i]->getCentreY()); pos += mcx::fmt("(%g,%g)", x[i], y[i]);
-        if (!(x[i] == x[i]) || !(y[i] == y[i]) || std::isinf(x[i]) || std::isinf(y[i])) { ctx.violation("nonfinite", {}, desc, pos); bad = true; }
-        if (fabs(rs[i]->width() - w0[i]) > 1e-9 || fabs(rs[i]->height() - h0[i]) > 1e-9) { ctx.violation("size_changed", {}, desc, mcx::fmt("node %d %gx%g", i, rs[i]->width(), rs[i]->height())); bad = true; } }
+        if (!(x[i] == x[i]) || !(y[i] == y[i]) || std::isinf(x[i]) || std::isinf(y[i])) { ctx.violation("nonfinite", inClass, desc, pos); bad = true; }
+        if (fabs(rs[i]->width() - w0[i]) > 1e-9 || fabs(rs[i]->height() - h0[i]) > 1e-9) { ctx.violation("size_changed", inClass, desc, mcx::fmt("node %d %gx%g", i, rs[i]->width(), rs[i]->height())); bad = true; } }
     bool anyRep = !ux.empty() || !uy.empty(); if (anyRep) ctx.count("reported_unsatisfiable");
     string who; for (auto *lst : {&ux, &uy}) { for (auto *u : *lst) { int owner = -1; for (size_t k = 0; k < used.size(); k++) for (auto m : mine[k]) if (u->cc == m) owner = k; who += mcx::fmt("%s:#%d(%u+%g%s%u) ", lst == &ux ? "x" : "y", owner, u->leftVarIndex, u->separation, u->equality ? "==" : "<=", u->rightVarIndex); } }
     if (!bad) for (size_t k = 0; k < used.size(); k++) {   // judged even when an internal assertion threw: the rectangles are still there
@@ -80,7 +86,7 @@ static void c07_case(const vector<Tpl> &T, int a, int b, int n, int code, int sz
             if (mode == 2) for (auto m : mine[k]) for (auto *sc : m->_subConstraintInfo) if (!sc->satisfied) excused = true;
             // known-finding class: overlap avoidance on, two user EQUALITY constraints that share an axis (Separation ==, Alignment,
             // Distribution, FixedRelative), this one violated and unreported while the OTHER one is named in the lists
-            vector<string> kc;
+            vector<string> kc = inClass;
             if (overlap && used.size() == 2) {
                 auto eqAxes = [&](const string &nm) { int m = 0; if (nm.find("FixedRelative") == 0) m = 3; else if (nm.find("==") != string::npos || nm.find("Alignment") == 0 || nm.find("Distribution") == 0) m = nm.find(" X ") != string::npos ? 1 : 2; return m; };
                 int mine_ = eqAxes(T[used[k]].name), other_ = eqAxes(T[used[1 - k]].name); bool otherReported = false;
